@@ -175,6 +175,26 @@ Definition updated_program (p : pt) (en en2 : env) (mm : mmap) : option loop :=
   | Some a, Some b => Some (zip_rep a b)
   | _, _ => None
   end.
+(* What get_measurement_windows() reports for that tree.  Every loop that was appended to a parent has its body
+   duration CACHED since then (append_child reads child.duration); an update of a volatile count does not invalidate
+   anything, so Loop.duration of a non-root loop is (body duration at build time) x (current count): the offsets of
+   later children and the tiling step of the parent are computed from those.  a = the program as built (old counts),
+   b = the same shape with the new counts. *)
+Fixpoint vwin (a b : loop) {struct a} : list window :=
+  match a, b with
+  | Loop _ wf ms ch, Loop n _ _ ch' =>
+      let kids := (fix go (l l' : list loop) : list (Qc * list window) :=
+                     match l, l' with
+                     | x :: r, y :: r' => (lbody x * natc (l_rep y), vwin x y) :: go r r'
+                     | _, _ => []
+                     end) ch ch' in
+      tile n (match ch with [] => body_of wf [] | _ => sumc (map fst kids) end) (ms ++ seq_windows 0 kids)
+  end.
+Definition updated_windows (p : pt) (en en2 : env) (mm : mmap) : option (list window) :=
+  match to_program (build p en mm fresh), to_program (buildv p en en2 mm fresh) with
+  | Some a, Some b => Some (vwin a b)
+  | _, _ => None
+  end.
 
 (* ---- which assignments the code rejects, and with which kind of error: the FIRST failing check in the order the
    code performs them (validate_scope of a MappingPT, count / range evaluation, the node's own declarations, then the
